@@ -3363,7 +3363,10 @@ class DNSProtocol(DNSMixin, protocol.Protocol):
         self.buffer += data
 
         while self.buffer:
-            if self.length is None and len(self.buffer) >= 2:
+            if self.length is None:
+                if len(self.buffer) < 2:
+                    # Only part of the two byte length prefix has arrived.
+                    break
                 self.length = struct.unpack("!H", self.buffer[:2])[0]
                 self.buffer = self.buffer[2:]
 
